@@ -61,6 +61,26 @@ def scan_features(prog, f):
     feats["F2"] = norm("captures(%s, subject[%s..])" % (canon(strip(tr.operand(ct["args"][0]))), "i"))
     if not re.search(r"\.regex$", canon(strip(tr.operand(ct["args"][0])))) or "self.arms" not in canon(tr.operand(ct["args"][0])):
         problems.append(("F2", "the regex is not the `regex` of an arm of self.arms"))
+    # F2b: every arm is tried: the loop over the arms is left only when the iterator is exhausted (or with an error)
+    arm_loops = [(h2, bl2) for h2, bl2 in natural_loops(body) if cb in bl2 and len(bl2) < len(blocks)]
+    if arm_loops:
+        h2, bl2 = min(arm_loops, key=lambda x: len(x[1]))
+        exits = []
+        from .e2_errflow import _failure_blocks
+        fails = _failure_blocks(body)
+        for x in bl2:
+            for s2 in body.succ(x):
+                if s2 not in bl2:
+                    if s2 in fails or not (body.reach_from([s2], avoid=fails) & set(body.return_blocks())):
+                        continue
+                    gs = [g for g in switch_edges(body, tr, x) if g.dst == s2]
+                    exits.append(any(g.variant == "None" and "Iterator::next" in canon(g.cond) for g in gs))
+        if exits and all(exits):
+            feats["F2b"] = "every arm is tried (the arm loop ends only when the arms are exhausted)"
+        else:
+            problems.append(("F2", "the loop over the arms can be left early: later arms are not tried"))
+    else:
+        problems.append(("F2", "no loop over the arms around Regex::captures"))
     # F1: loop guard i < subject.len()
     f1 = None
     for g in dominating_guards(body, tr, cb):
